@@ -38,5 +38,6 @@ broadcast use axiom_seal_len, axiom_open_unique, lemma_len0_empty, axiom_v4_len,
 //@include ../parts/sstcp.rs
 //@include ../parts/pwin.rs
 //@include ../parts/ssudp.rs
+//@include ../parts/sspayload.rs
 } // verus!
 fn main() {}
